@@ -3,7 +3,7 @@
    report.BuildSentryReport for a non-nil error (for nil the Go function returns
    nothing before doing anything: the runner prints "none"). *)
 From Errv Require Import Base.Str Redact.Markers Redact.Buffer Model.Err Model.Sem Model.Details Model.Marks
-     Model.Access Model.Report Model.Codec Proofs.ReportFacts Proofs.StackFacts.
+     Model.Access Model.Report Model.Codec Proofs.RedactFacts Proofs.ReportFacts Proofs.StackFacts Proofs.ReportLines.
 
 (* the message begins with [file:line: ] + the redacted verbose rendering + the
    composition header *)
@@ -55,6 +55,30 @@ Theorem C15_decoded_source : forall f r,
   frame_ok f = true -> source_of_printed (print_stack (f :: r)) = source_of_frame f.
 Proof. exact source_of_printed_stack. Qed.
 Print Assumptions C15_decoded_source.
+
+(* the whole message, exactly: [source: ] verbose rendering, header, one composition line per
+   layer (innermost first), trailer when two or more layers carry a stack (Proofs/ReportLines.v) *)
+Theorem C15_message_exact : forall e,
+  rp_message (build_report e) =
+  report_pre e ++ report_verbose e ++ comp_header ++
+  join [nl] (comp_lines 0 (rev (visit_all e))) ++ report_trailer e.
+Proof. exact report_message_exact. Qed.
+Print Assumptions C15_message_exact.
+
+Theorem C15_one_line_per_layer : forall e,
+  List.length (comp_lines 0 (rev (visit_all e))) = List.length (visit_all e) /\
+  ((forall l, In l (visit_all e) -> no_nl (short_type l) = true) ->
+   split_on nl (composition_section e) =
+   comp_lines 0 (rev (visit_all e)) ++
+   (if (2 <=? stack_count (visit_all e))%nat then [check_line] else [])).
+Proof. intro e. split; [apply composition_line_count | apply composition_lines]. Qed.
+Print Assumptions C15_one_line_per_layer.
+
+(* a line has a newline exactly when the layer's type name has one (only a type name received
+   from the wire can: witness one_line_per_layer_needs_type_names in ReportLines.v) *)
+Theorem C15_line_no_newline : forall k l, no_nl (comp_line k l) = no_nl (short_type l).
+Proof. exact comp_line_no_nl. Qed.
+Print Assumptions C15_line_no_newline.
 
 Example C15_example :
   let st := [mkframe 1 (lit "main.f") (lit "/a/b.go") 12] in
